@@ -122,7 +122,7 @@ def generate(T, tier):
         if not q:
             ns = sorted(set([0, 1, 2, cap - 1, cap]) & set(ns))
         for n in ns:
-            if tier == "quick" and not (q and n in (0, 1, cap)):
+            if tier == "quick" and not (q and n in (0, 1)):
                 continue
             lay, build, checks = build_expr(G, mod, n)
             total = lay.off
@@ -161,7 +161,7 @@ pub fn %(name)s() {
 }
 """ % {"unw": unw, "name": name, "mod": mod, "build": "\n    ".join(build), "nbytes": nbytes, "number": m["number"], "total": total,
        "cnt": "\n    ".join(cnt_checks), "checks": "\n    ".join(checks)})
-            tq = q and n in (0, 1, cap)
+            tq = q and n in (0, 1)   # at-capacity runs need > 12 GB each: thorough tier
             hs.append({"name": "c15gen::%s" % name, "group": "main", "tier": "quick" if tq else "thorough",
                        "bounds": "%s with every list/string at %d elements (capacity %d): default elements carrying a symbolic tag" % (mod, n, cap)})
         # over-capacity counts and truncation
@@ -213,12 +213,12 @@ pub fn %(name)s() {
     }
 }
 """ % {"unw": max(12, min(G.max_cap(mod), 64) + 2, nb2 + 2), "name": name, "mod": mod, "build": "\n    ".join(build2), "nbytes": nb2, "number": m["number"], "needed": nb2})
-        hs.append({"name": "c15gen::%s" % name, "group": "trunc", "tier": "quick" if mod in ("msg1004", "msg1057") else "thorough",
+        hs.append({"name": "c15gen::%s" % name, "group": "trunc", "tier": "thorough",
                    "bounds": "%s with 2 elements per list, payload cut at every byte length 2..%d => Err" % (mod, nb2 - 1)})
     gen.write_gen("c15_list.rs", "\n".join(code))
     return {
         "harnesses": hs,
-        "groups": {"main": {"features": ["c15"], "est_gb": 4, "timeout_s": 3000, "unwindset": [["try_from_fn_erased", 392]]}, "trunc": {"features": ["c15"], "timeout_s": 3000, "unwindset": [["try_from_fn_erased", 392]]}},
+        "groups": {"main": {"features": ["c15"], "est_gb": 8, "mem_gb": 20, "timeout_s": 3000, "unwindset": [["try_from_fn_erased", 392]]}, "trunc": {"features": ["c15"], "timeout_s": 3000, "unwindset": [["try_from_fn_erased", 392]]}},
         "level": "model_checking",
         "functions": ["msg::{frag_vec, frag_vec_with_len, msg_len_middle} generated encode/decode for %d list-bearing message types" % len(types), "df_88591_string_with_len encode/decode", "DataVec::{push,len}"],
         "bounds": {"counts": "every n in 0..=capacity (thorough; quick n in {0,1,cap} for %d types), one harness per (type, n) with the real element codec" % len(QUICK),
